@@ -57,12 +57,6 @@ def check_faithful(c):
             if segs is None:
                 return {"entry": cc.entry_tok(e), "path_not_parsable": p}
             gl, gr = cc.resolve(a, segs, 0), cc.resolve(b, segs, 1)
-            if e[0] == "dt" and (gr is cc.MISSING or not same(gr, r)):
-                # a type clash inside a keyed list is reported at prefix[i] only: accept the reported right value
-                # anywhere in the right list
-                parent = cc.resolve(b, segs[:-1], 1)
-                if segs and segs[-1][0] == "j" and isinstance(parent, list) and any(same(x, r) for x in parent):
-                    gr = r
             if gl is cc.MISSING or gr is cc.MISSING:
                 return {"entry": cc.entry_tok(e), "path": p, "does_not_resolve": ["left" if gl is cc.MISSING else "", "right" if gr is cc.MISSING else ""]}
             if not same(gl, l) or not same(gr, r):
@@ -161,11 +155,7 @@ def check_pure(c):
 
 
 def known_class(c, detail=None):
-    # a type clash between two list items needs a str() collision (keyed compare): its path carries the left
-    # index only and does not mirror
-    if c.get("mode") == "k" and detail and ("mirror_of_a_b_only" in detail) and cc.has_str_collision(c["a"], c["b"]):
-        return "C09-b"
-    return None
+    return None  # no open finding (C09-b fixed: a type clash inside a keyed list carries both indexes and mirrors)
 
 
 def valid_case(c):
@@ -194,7 +184,7 @@ def run(ctx):
     rng = ctx.rng("any")
     cases = []
     for i in range(n):
-        c = cc.gen_case(rng, depth, opts=(i % 3 == 0), collide=(i % 5 == 0))
+        c = cc.gen_case(rng, depth, opts=(i % 3 == 0), collide=(i % 2 == 0))
         if c["mode"] == "k" and rng.random() < 0.4:
             c["ck"] = rng.choice([rng.sample(cc.KEYS, 1), rng.sample(cc.KEYS, 2), rng.choice(cc.KEYS)])
         cases.append(c)
@@ -208,6 +198,20 @@ def run(ctx):
             kc = c08.as_case(k, permute=True)
             kc["_kind"] = "keyed"
             cases.append(kc)
+    # type clashes INSIDE a keyed list at different positions (fix C09-b): root lists of keyed records, some records
+    # of the right operand left as plain dicts (same composite key, other type), under the types flag or not
+    rng3 = ctx.rng("clash")
+    for _ in range(n // 6):
+        k = c08.gen_c08_case(rng3, 1)
+        if not c08.unique_keys(k) or not k["l2"]:
+            continue
+        kc = c08.as_case(dict(k, wrap=0), permute=True)
+        if not isinstance(kc["b"], list):
+            continue
+        kc["plain_b"] = sorted(rng3.sample(range(len(kc["b"])), rng3.randint(1, len(kc["b"]))))
+        kc["setters"] = [["types", rng3.random() < 0.7]] + cc.gen_setters(rng3)[:2]
+        kc["_kind"], kc["_may_raise"] = "clash", True
+        cases.append(kc)
     nt = lambda c: c["_kind"] != "equal"
     ctx.correspond("cmp.run/any", cases, cc.corr_line, cc.corr_impl, nontrivial=nt)
     ctx.evaluate("faithful", cases, check_faithful, in_known=known_class, nontrivial=nt)
@@ -230,6 +234,6 @@ def run(ctx):
     ctx.extra["assumptions"] = [
         "trees are converted recursively; dictionary keys are plain names without '/', '[', ']', '<', '>'",
         "operand purity is observed on deep copies (canonical encodings before/after); values are immutable in the model",
-        "the model follows the code with fix patches C07-a, C08-a, C09-a applied",
+        "the model follows the code with fix patches C07-a, C08-a, C09-a, C07-b, C07-c, C09-b, C10-a applied",
     ]
     ctx.extra["trusted_base"] = ["path resolver parse_path/resolve of harness/props/compare_common.py"]
